@@ -33,12 +33,23 @@ def mc_measures(G, nsamples, seed):
     return frac, sigma
 
 
-def vol_event(alg, N, nsamples, seed):
+def vol_event(alg, N, nsamples, seed, via_fullgrid=False):
     e = dict(ev="Volumes", alg=alg, n=int(N), len=0, positive=True, share9=[], firstN=True, sumPm=0, ratioPm=[], sigmaPm=[], err="")
     total = math.pi ** 2 if DIM[alg] == 4 else 4 * math.pi
     try:
         with quiet():
-            g = create(alg, N)
+            if via_fullgrid:
+                # the rotation grid as the full grid owns it, read AFTER the full grid has computed its 6D volumes twice and a
+                # caller has normalised a returned array in place: the reported volumes must not depend on that history
+                from molgri.space.fullgrid import FullGrid
+                fg = FullGrid(f"{alg}_{N}", "4", "[0.2, 0.3]")
+                fg.get_total_volumes()
+                w = fg.b_rotations.get_spherical_voronoi().get_voronoi_volumes()
+                w /= w.sum()
+                fg.get_total_volumes()
+                g = fg.b_rotations
+            else:
+                g = create(alg, N)
             vol = np.asarray(g.get_spherical_voronoi().get_voronoi_volumes(), dtype=float)
             G = np.asarray(g.get_grid_as_array(only_upper=True) if DIM[alg] == 4 else g.get_grid_as_array(), dtype=float)
             if DIM[alg] == 4 and N >= 4:
@@ -74,18 +85,23 @@ def run(ctx: Ctx):
     nsamples = 2000000 if thorough else 300000
     plan = [(alg, N) for alg in ("cube4D", "randomQ") for N in (range(1, 61) if thorough else range(1, 25))]
     plan += [("ico", 2), ("randomS", 3), ("cube3D", 1)]
+    history = [("cube4D", 8), ("randomQ", 10), ("cube4D", 3)]
     if thorough:
         plan += [("cube4D", 80), ("cube4D", 150), ("cube4D", 272), ("randomQ", 100), ("randomQ", 200), ("fulldiv", 40)]
     events = []
     for alg, N in plan:
         events.append(vol_event(alg, N, nsamples, ctx.seed + N))
         ctx.count(1, nontrivial_key=(alg, N))
+    for alg, N in history:
+        e = vol_event(alg, N, nsamples, ctx.seed + N, via_fullgrid=True)
+        e["history"] = "after FullGrid.get_total_volumes() x2 and an in-place normalisation of a returned array"
+        events.append(e)
     for i, e in enumerate(events):
         e["tid"] = i
     rejects = ctx.validate("GridLife_Trace", "GridLife_Trace.cfg", events, name="volumes", timeout=1800)
     for tid, clause, _ in rejects:
         e = events[tid]
-        ctx.violation(f"rotation grid {e['alg']}_{e['n']}: {clause}", dict(event=e, clause=clause))
+        ctx.violation(f"rotation grid {e['alg']}_{e['n']}{' (' + e['history'] + ')' if 'history' in e else ''}: {clause}", dict(event=e, clause=clause))
     ctx.sample(events[10])
     ctx.cov["ratio_range_permille"] = [min(min(e["ratioPm"]) for e in events if e["ratioPm"]), max(max(e["ratioPm"]) for e in events if e["ratioPm"])]
     ctx.cov["sum_range_permille"] = [min(e["sumPm"] for e in events if e["ratioPm"]), max(e["sumPm"] for e in events if e["ratioPm"])]
